@@ -166,8 +166,18 @@ func (p *polling) onDataRequest(ctx *types.HttpContext) {
 		packet = types.NewStringBuffer(nil)
 	}
 	if body := ctx.Request().Body; body != nil {
-		packet.ReadFrom(body)
+		// The declared length may be absent (chunked) or wrong: never read more
+		// than the limit plus one byte, and refuse what exceeds it.
+		limit := p.MaxHttpBufferSize()
+		n, _ := packet.ReadFrom(io.LimitReader(body, limit+1))
 		body.Close()
+		if n > limit {
+			cleanup()
+
+			ctx.SetStatusCode(http.StatusRequestEntityTooLarge)
+			ctx.Write(nil)
+			return
+		}
 	}
 	p.Proto().OnData(packet)
 
